@@ -98,6 +98,13 @@ def detect(name, tier='quick', checks=None):
     return res
 
 
+# changes filed under one property whose observable effect is (also) another property's subject
+SIBLINGS = {
+    'C01-r2-1': ['C01', 'C02'],   # label/goto renamed inconsistently: the renaming relation is C02's oracle
+    'C01-r2-3': ['C01', 'C02'],   # name map shared between minifier runs: non-injective renaming (C02)
+}
+
+
 def main():
     cmd = sys.argv[1]
     if cmd == 'verify':
@@ -112,8 +119,9 @@ def main():
         for name in sorted(os.listdir(SEEDED)):
             if not os.path.isdir(os.path.join(SEEDED, name)):
                 continue
-            r = detect(name, tier)
+            r = detect(name, tier, SIBLINGS.get(name))
             results.setdefault(name, {})[tier] = r
+            results[name]['detected_' + tier] = any(v['exit'] == 1 for v in r.values())
             json.dump(results, open(path, 'w'), indent=1, sort_keys=True)
 
 
